@@ -6,7 +6,7 @@ EXE = 'c02'
 MODE = 'trace'
 THEOREMS = ['Tbox.C02.C02_callbacks_legit', 'Tbox.C02.C02_never_early', 'Tbox.C02.C02_no_fire_after_disable',
             'Tbox.C02.C02_records_belong_to_enabled', 'Tbox.C02.C02_deadline_order', 'Tbox.C02.C02_oneshot_once',
-            'Tbox.C02.C02_oneshot_disabled_in_callback', 'Tbox.C02.C02_no_skip', 'Tbox.C02.C02_reenable_fresh',
+            'Tbox.C02.C02_oneshot_disabled_in_callback', 'Tbox.C02.C02_no_skip', 'Tbox.C02.C02_reenable_fresh', 'Tbox.C02.C02_destroyed_never_fires',
             'Tbox.C02.exec_inv']
 SOURCES = vlib.EVENT_SOURCES + vlib.BASE_SOURCES
 FLAVOUR = 'asan'
